@@ -64,7 +64,7 @@ pub fn render(schema: &s::Document, p: &mut Policy) -> J {
         let mut m = Map::new();
         m.insert("name".into(), json!(t.name()));
         match t {
-            s::TypeDefinition::Scalar(x) => { m.insert("kind".into(), json!("SCALAR")); p.opt(&mut m, "description", x.description.clone().map(|d| json!(d))); p.opt(&mut m, "specifiedByURL", Some(json!("https://example.com/scalar")));
+            s::TypeDefinition::Scalar(x) => { m.insert("kind".into(), json!("SCALAR")); p.opt(&mut m, "description", x.description.clone().map(|d| json!(d))); p.opt(&mut m, "specifiedByURL", Some(json!("https://example.com/sc\u{e4}lar/\u{1F4A1}")));
                 p.opt(&mut m, "fields", None); p.opt(&mut m, "enumValues", None); }
             s::TypeDefinition::Object(x) => { m.insert("kind".into(), json!("OBJECT")); p.opt(&mut m, "description", x.description.clone().map(|d| json!(d)));
                 m.insert("fields".into(), J::Array(x.fields.iter().map(|f| field(schema, f, p)).collect()));
@@ -97,7 +97,8 @@ pub fn render(schema: &s::Document, p: &mut Policy) -> J {
         }
     }
     let mut sm = Map::new();
-    p.opt(&mut sm, "description", Some(json!("a schema")));
+    // 2-, 3- and 4-byte UTF-8 sequences: a reader that splits the bytes anywhere must not change the text
+    p.opt(&mut sm, "description", Some(json!("a sch\u{e9}ma \u{2014} \u{6a21}\u{5f0f} \u{1F600} \"quoted\" \\ end")));
     let qn = schema.schema_definition().query.clone().unwrap_or("Query".into());
     sm.insert("queryType".into(), json!({"name": qn}));
     p.opt(&mut sm, "mutationType", schema.mutation_type().map(|t| json!({"name": t.name})));
